@@ -28,6 +28,7 @@ CHECKS = {
     "C08": "coherence",
     "C09": "weights_invariants",
     "C10": "cpmc_step",
+    "C11": "zero_variance",
     "C12": "sampler_matrix",
     "C14": "lockstep",
 }
